@@ -55,6 +55,16 @@ pub fn compare(
         (Ok(oa), Ok(ob)) => {
             let da: Vec<IDisposal> = oa.disposals.iter().filter(|d| keep_disposal(d)).cloned().collect();
             let db: Vec<IDisposal> = ob.disposals.iter().filter(|d| keep_disposal(d)).cloned().collect();
+            // one disposal per security and day, and the same (security, day) pairs on both sides - whatever the line order,
+            // also where same-day lots stay unmerged (the recorded finding concerns legs and their costs, not this)
+            let key = |v: &[IDisposal]| -> Vec<(String, i64)> {
+                let mut k: Vec<(String, i64)> = v.iter().map(|d| (d.ticker.clone(), d.day)).collect();
+                k.sort();
+                k
+            };
+            let (xa, xb) = (key(&da), key(&db));
+            let dup = |k: &[(String, i64)]| k.windows(2).any(|w| w[0] == w[1]);
+            leaf.ob_bool(&format!("{tag}.one-disposal-per-security-and-day"), xa == xb && !dup(&xa) && !dup(&xb), &format!("disposals {xa:?} vs {xb:?}"));
             let (ga, gb) = (aggregate(&da), aggregate(&db));
             let ka: Vec<&LegKey> = ga.keys().collect();
             let kb: Vec<&LegKey> = gb.keys().collect();
